@@ -28,6 +28,7 @@ STAGE1_CFG = """SPECIFICATION Spec
 CONSTANTS Routes <- {routes}
   Backends <- AllBackends
   Hosts <- {hosts}
+  KnownDefects <- {defects}
   EmitMode = "sel"
   ShardLo = 0
   ShardHi = 0
@@ -36,10 +37,9 @@ CONSTANTS Routes <- {routes}
 INVARIANT TypeOK
 INVARIANT SentImpliesDemandedPassed
 INVARIANT FailedCheckRaisesSSLErrorAndCloses
-INVARIANT UnverifiedWarnedAndNotReportedVerified
+{strict}
 INVARIANT Monotone
 INVARIANT WithinExpectation
-INVARIANT NoAnomalousOutcome
 INVARIANT PureRunAgrees
 INVARIANT IndexRoundTrip
 PROPERTY NoRequestByteBeforeValidation
@@ -48,10 +48,14 @@ PROPERTY RaiseClosesSocket
 PROPERTY VerifiedNeverRevised
 {live}CHECK_DEADLOCK FALSE
 """
+STRICT = "INVARIANT UnverifiedWarnedAndNotReportedVerified\nINVARIANT NoAnomalousOutcome"
+MODULO_KNOWN = ("INVARIANT UnverifiedWarned_ModuloKnown\nINVARIANT NoAnomalous_ModuloKnown\n"
+                "INVARIANT KnownDefectAlwaysShows")
 EMIT_CFG = """SPECIFICATION EmitSpec
 CONSTANTS Routes <- AllRoutes
   Backends <- AllBackends
   Hosts <- AllHosts
+  KnownDefects <- AllKnownDefects
   EmitMode = "{mode}"
   ShardLo = {lo}
   ShardHi = {hi}
@@ -64,6 +68,7 @@ TRACE_CFG = """SPECIFICATION TSpec
 CONSTANTS Routes <- TrRoutes
   Backends <- TrBackends
   Hosts <- TrHosts
+  KnownDefects <- AllKnownDefects
 CHECK_DEADLOCK FALSE
 """
 MODEL_ACTIONS = ["DeriveCertReqs", "Dial", "ProxyHandshake", "Tunnel", "BuildContext", "DecideWhoChecksHostname",
@@ -212,6 +217,7 @@ def _judge(pts, results, verdicts):
             out["nontrivial"].append(idx)
         case = {"kind": "point", "idx": idx, "point": pt["p"], "variant": res["variant"], "expect": pt["expect"],
                 "demanded": pt["demanded"], "failed": pt["failed"], "model": pt["model"], "observed": raw,
+                "mode": pt["mode"],
                 "exc_msg": res["exc_msg"]}
         if hard != "ok":
             out["bad"].append((hard, case))
@@ -239,8 +245,12 @@ def _task(args):
 # ------------------------------------------------------------------------------------ findings
 def facts_of(clause, case):
     p = case["point"]
+    obs = case["observed"]
     return {"clause": clause, "route": p["route"], "backend": p["backend"], "reqs": p["reqs"], "fp": p["fp"],
-            "ctx": p["ctx"], "ah": p["ah"], "expect": case.get("expect")}
+            "ctx": p["ctx"], "ah": p["ah"], "expect": case.get("expect"), "mode": case.get("mode"),
+            "warned": bool(obs["warned"]),
+            "reported_verified": any(x["at"] == "request" and x["v"] for x in obs["seen"]),
+            "proxy_reported_verified": any(x["at"] == "request" and x["pv"] == "true" for x in obs["seen"])}
 
 
 def report_bad(rep, findings, clause, case):
@@ -258,27 +268,47 @@ def report_bad(rep, findings, clause, case):
 
 
 # ------------------------------------------------------------------------------------ run
-def stage1(rep, routes, hosts, live):
-    cfg = STAGE1_CFG.format(routes=routes, hosts=hosts, live="PROPERTY EveryAttemptConcludes\n" if live else "")
+def stage1(rep, routes, hosts, live=False, defects=False):
+    """One exhaustive TLC run over a sub-lattice.  defects=False: the design the property asks for
+    (KnownDefects = {}), every clause strict.  defects=True: the Model of the code as it is; the
+    warning clause may fail only on the recorded signature, and must fail there."""
+    cfg = STAGE1_CFG.format(routes=routes, hosts=hosts, live="PROPERTY EveryAttemptConcludes\n" if live else "",
+                            defects="AllKnownDefects" if defects else "NoDefects",
+                            strict=MODULO_KNOWN if defects else STRICT)
     r = tlc.run("MC_TLSVerify", cfg, workers="auto", coverage=True, files={"sel.json": "[]"},
                 env={"SEL_FILE": "sel.json"}, heap="4g", timeout=7200)
-    rep.add_tlc(f"MC_TLSVerify Routes={routes} Hosts={hosts}" + (" +liveness" if live else ""), r)
+    rep.add_tlc(f"MC_TLSVerify Routes={routes} Hosts={hosts} KnownDefects={'all' if defects else '{}'}"
+                + (" +liveness" if live else ""), r)
     if r.violated:
         rep.violation("ModelViolatesRules", f"TLC: {r.violated} violated by the decision model of TLSVerify.tla "
-                      f"(the model no longer satisfies the property)", {"kind": "stage1", "violated": r.violated})
+                      f"(Routes={routes} Hosts={hosts} defects={defects})",
+                      {"kind": "stage1", "violated": r.violated, "routes": routes, "hosts": hosts, "defects": defects})
     cov = {k: v[1] for k, v in r.coverage.items()}
-    need = [a for a in MODEL_ACTIONS if not (a == "ProxyHandshake" and routes != "AllRoutes")]
-    missing = [a for a in need + ["Report" + c for c in CLASSES] if cov.get(a, 0) == 0]
+    need = list(MODEL_ACTIONS)
+    if routes in ("NoTlsProxyRoutes", "DirectRoute"):
+        need.remove("ProxyHandshake")
+    if routes == "DirectRoute":
+        need.remove("Tunnel")
+    classes = list(CLASSES)
+    if hosts == "IpHostOnly" and routes == "DirectRoute":
+        pass
+    missing = [a for a in need + ["Report" + c for c in classes] if cov.get(a, 0) == 0]
     if missing and not r.violated:
-        raise tlc.MachineryError(f"vacuous stage 1: actions/outcome classes never reached: {missing}")
-    if cov.get("ReportAnomalous", 0) != 0 and not r.violated:
-        raise tlc.MachineryError("stage 1 reached an anomalous outcome without an invariant failing")
+        raise tlc.MachineryError(f"vacuous stage 1 ({routes}/{hosts}): actions/outcome classes never reached: {missing}")
+    anomalous = cov.get("ReportAnomalous", 0)
+    if not r.violated:
+        if not defects and anomalous != 0:
+            raise tlc.MachineryError("stage 1 reached an anomalous outcome without an invariant failing")
+        if defects and anomalous == 0:
+            raise tlc.MachineryError("the Model with KnownDefects does not reproduce the recorded defect")
     lat = tlc.tagged_json(r.out, "LATTICE")
     if not lat:
         raise tlc.MachineryError("MC_TLSVerify did not print its LATTICE line")
-    rep.extra.setdefault("stage1_outcome_classes", {}).update({c: cov.get("Report" + c, 0) for c in CLASSES})
-    rep.extra["stage1_action_coverage"] = {a: cov.get(a, 0) for a in MODEL_ACTIONS}
-    return lat[0], sum(cov.get("Report" + c, 0) for c in CLASSES)
+    key = f"{routes}/{hosts}/{'asis' if defects else 'design'}"
+    rep.extra.setdefault("stage1_outcome_classes", {})[key] = dict({c: cov.get("Report" + c, 0) for c in CLASSES},
+                                                                 Anomalous=anomalous)
+    rep.extra.setdefault("stage1_action_coverage", {})[key] = {a: cov.get(a, 0) for a in MODEL_ACTIONS}
+    return lat[0], sum(cov.get("Report" + c, 0) for c in CLASSES) + anomalous
 
 
 def run(rep):
@@ -292,10 +322,14 @@ def run(rep):
                        "one request per connection; proxy legs without proxy_assert_* settings"]
     findings = known.load("C07")
     if quick:
-        lattice, npoints = stage1(rep, "AllRoutes", "QuickHosts", live=False)
+        # the model distinguishes host spellings only as DNS name vs IP literal
+        lattice, npoints = stage1(rep, "AllRoutes", "DnsHostOnly")
+        stage1(rep, "DirectRoute", "IpHostOnly")
+        stage1(rep, "PinnedRoute", "DnsHostOnly", defects=True)
     else:
         stage1(rep, "NoTlsProxyRoutes", "SmallHosts", live=True)
-        lattice, npoints = stage1(rep, "AllRoutes", "AllHosts", live=False)
+        lattice, npoints = stage1(rep, "AllRoutes", "AllHosts")
+        stage1(rep, "PinnedRoute", "AllHosts", defects=True)
     factors = lattice["factors"]
     radices = [len(f["levels"]) for f in factors]
     if factors[-1]["name"] != "stack":
@@ -376,7 +410,7 @@ def replay(rep, path):
     findings = known.load("C07")
     rep.rule = "replay of one recorded lattice point"
     if case.get("kind") == "stage1":
-        lattice, _ = stage1(rep, "AllRoutes", "AllHosts", live=False)
+        stage1(rep, case.get("routes", "AllRoutes"), case.get("hosts", "AllHosts"), defects=case.get("defects", False))
         return
     backend = case["point"]["backend"]
     out = _replay_one(case, backend)
